@@ -1,17 +1,177 @@
 (* C09 -- ML objectives equal their definitions for any thread count / batch size / schedule.
    Only statements + `exact` + Print Assumptions (+ non-vacuity examples) live here.
    Model: C09_Defs (exact rationals; chunk bounds = kernels of parallel.h shared with C17, sum_reduce loop
-   bounds, parameter layout, unassigned-sample tests, cache tests = kernels translated on every run). *)
+   bounds, parameter layout, unassigned-sample tests, cache tests = kernels translated on every run).
+   A schedule is the list of (chunk, worker) events in completion order; `valid_schedule workers n batch sched` says:
+   the chunks are a permutation of pool_t::map's chunks of [0,n) and every worker index is below the number of
+   per-thread accumulators.  EVERY theorem quantifies over every number of workers, every batch size and every valid
+   schedule (assignment chunk -> worker and completion order). *)
 From Coq Require Import List ZArith QArith Bool Permutation Morphisms.
 From LNGen Require Import Src_parallel Src_c09.
 From LN Require Import C17_Defs C17_Statements C09_Defs C09_Proofs.
 Import ListNotations.
 Local Open Scope Q_scope.
 
-(* 2. schedule independence of the reduction: for every number of workers, batch size, assignment
-      chunk -> worker and completion order, accumulate-per-thread + sum_reduce + division by #samples is the mean *)
+(* 1. the reduction, generically: per-thread accumulation + sum_reduce over ANY commutative monoid (scalars, gradient
+      vectors, ...) is the plain sum over [0,n) *)
+Theorem C09_reduce_any_monoid : forall (A : Type) (aeq : A -> A -> Prop) (add : A -> A -> A) (zero : A),
+  Equivalence aeq -> Proper (aeq ==> aeq ==> aeq) add ->
+  (forall a b, aeq (add a b) (add b a)) -> (forall a b c, aeq (add (add a b) c) (add a (add b c))) ->
+  (forall a, aeq (add zero a) a) ->
+  forall (term : Z -> A) workers n batch sched,
+  (1 <= workers)%nat -> (1 <= batch)%Z -> (0 <= n)%Z -> valid_schedule workers n batch sched ->
+  aeq (map_reduce add zero term workers sched) (range_sum add zero term 0 (Z.to_nat n)).
+Proof. exact @map_reduce_schedule_independent. Qed.
+Print Assumptions C09_reduce_any_monoid.
+
+(* 2. ... over Q followed by the division by #samples it is the mean *)
 Theorem C09_schedule_independent : forall (f : Z -> Q) workers n batch sched,
   (1 <= workers)%nat -> (1 <= batch)%Z -> (0 <= n)%Z -> valid_schedule workers n batch sched ->
   reduced_mean f workers sched n == naive_mean f n.
 Proof. exact reduced_mean_naive. Qed.
 Print Assumptions C09_schedule_independent.
+
+(* 3. linear::function_t: value = mean_i loss(t_i, W x_i + b) + l1 mean|W| + l2/2 mean W^2 (r2 = sqrt(l2) as the code
+      stores it), for any loss *)
+Theorem C09_linear_value_def : forall (lval : list Q -> list Q -> Q) (lgrad : list Q -> list Q -> list Q)
+  isize tsize l1 l2 r2 x T X workers batch sched,
+  length T = length X -> 0 <= l1 -> 0 <= l2 -> r2 * r2 == l2 ->
+  (1 <= workers)%nat -> (1 <= batch)%Z -> valid_schedule workers (Z.of_nat (length X)) batch sched ->
+  lin_value lval lgrad isize tsize l1 l2 r2 x T X workers sched == lin_naive_value lval isize tsize l1 l2 x T X.
+Proof. exact lin_value_def. Qed.
+Print Assumptions C09_linear_value_def.
+
+(* ... and the matching gradient, coordinate by coordinate of the parameter layout translated from the source:
+   d/dW(c,j) = mean_i dloss_c(i) x_i(j) + l1 sign(W(c,j))/#W + l2 W(c,j)/#W,   d/db(c) = mean_i dloss_c(i) *)
+Theorem C09_linear_grad_W_def : forall (lval : list Q -> list Q -> Q) (lgrad : list Q -> list Q -> list Q),
+  (forall t o, length t = length o -> length (lgrad t o) = length o) ->
+  forall isize tsize x T X,
+  Forall (fun t => length t = Z.to_nat tsize) T -> (0 <= isize)%Z -> (0 <= tsize)%Z ->
+  Z.of_nat (length x) = src_c09_lin_size isize tsize ->
+  Forall (fun xi => length xi = Z.to_nat isize) X -> length T = length X ->
+  forall l1 l2 workers batch sched c j,
+  0 <= l1 -> 0 <= l2 -> (1 <= workers)%nat -> (1 <= batch)%Z ->
+  valid_schedule workers (Z.of_nat (length X)) batch sched ->
+  (c < Z.to_nat tsize)%nat -> (j < Z.to_nat isize)%nat ->
+  nth (c * Z.to_nat isize + j) (lin_grad lval lgrad isize tsize l1 l2 x T X workers sched) 0 ==
+  lin_naive_gW lgrad isize tsize l1 l2 x T X c j.
+Proof. exact lin_grad_W_def. Qed.
+Print Assumptions C09_linear_grad_W_def.
+
+Theorem C09_linear_grad_b_def : forall (lval : list Q -> list Q -> Q) (lgrad : list Q -> list Q -> list Q),
+  (forall t o, length t = length o -> length (lgrad t o) = length o) ->
+  forall isize tsize x T X,
+  Forall (fun t => length t = Z.to_nat tsize) T -> (0 <= isize)%Z -> (0 <= tsize)%Z ->
+  Z.of_nat (length x) = src_c09_lin_size isize tsize ->
+  Forall (fun xi => length xi = Z.to_nat isize) X -> length T = length X ->
+  forall (l1 l2 : Q) workers batch sched c,
+  (1 <= workers)%nat -> (1 <= batch)%Z -> valid_schedule workers (Z.of_nat (length X)) batch sched ->
+  (c < Z.to_nat tsize)%nat ->
+  nth (Z.to_nat (src_c09_lin_bias_offset isize tsize) + c) (lin_grad lval lgrad isize tsize l1 l2 x T X workers sched) 0 ==
+  lin_naive_gb lgrad isize tsize x T X c.
+Proof. exact lin_grad_b_def. Qed.
+Print Assumptions C09_linear_grad_b_def.
+
+(* 4. gboost::bias_function_t: mean_i loss(t_i, b) and its gradient *)
+Theorem C09_gboost_bias_def : forall (lval : list Q -> list Q -> Q) (lgrad : list Q -> list Q -> list Q)
+  x T workers batch sched,
+  (1 <= workers)%nat -> (1 <= batch)%Z -> valid_schedule workers (Z.of_nat (length T)) batch sched ->
+  bias_value lval lgrad x T workers sched == bias_naive_value lval x T /\
+  (forall c, (c < length x)%nat -> nth c (bias_grad lval lgrad x T workers sched) 0 == bias_naive_grad lgrad x T c).
+Proof.
+  intros lval lgrad x T workers batch sched Hw Hb Hs. split.
+  - exact (bias_value_def lval lgrad x T workers batch sched Hw Hb Hs).
+  - intros c Hc. exact (bias_grad_def lval lgrad x T workers batch sched c Hw Hb Hs Hc).
+Qed.
+Print Assumptions C09_gboost_bias_def.
+
+(* 5. gboost::scale_function_t: mean_i loss(t_i, s_i + x[cluster_i] w_i), unassigned (group < 0: test translated from
+      the source) samples unscaled; gradient wrt x[g] = mean_i [cluster_i = g] <dloss_i, w_i> *)
+Theorem C09_gboost_scale_value_def : forall (lval : list Q -> list Q -> Q) (lgrad : list Q -> list Q -> list Q),
+  (forall t o o', Forall2 Qeq o o' -> lval t o == lval t o') ->
+  forall x groups S0 Wk T smp,
+  length T = length smp ->
+  (forall s, In s smp -> length (nthZ S0 s nil) = length (nthZ Wk s nil)) ->
+  forall workers batch sched,
+  (1 <= workers)%nat -> (1 <= batch)%Z -> valid_schedule workers (Z.of_nat (length smp)) batch sched ->
+  scale_value lval lgrad x groups S0 Wk T smp workers sched == scale_naive_value lval x groups S0 Wk T smp.
+Proof. exact scale_value_def. Qed.
+Print Assumptions C09_gboost_scale_value_def.
+
+Theorem C09_gboost_scale_grad_def : forall (lval : list Q -> list Q -> Q) (lgrad : list Q -> list Q -> list Q)
+  x groups S0 Wk T smp,
+  length T = length smp ->
+  forall workers batch sched g,
+  (1 <= workers)%nat -> (1 <= batch)%Z -> valid_schedule workers (Z.of_nat (length smp)) batch sched ->
+  (g < length x)%nat ->
+  nth g (scale_grad lval lgrad x groups S0 Wk T smp workers sched) 0 ==
+  scale_naive_grad lgrad x groups S0 Wk T smp (Z.of_nat g).
+Proof. exact scale_grad_def. Qed.
+Print Assumptions C09_gboost_scale_grad_def.
+
+(* 6. gboost::grads_function_t: the per-sample value / gradient buffers are written range by range over whatever they
+      held before; afterwards they hold exactly the per-sample losses / loss gradients (Leibniz equality), the value is
+      their mean and the reported gradient the per-sample gradient divided by #samples *)
+Theorem C09_gboost_grads_def : forall (lval : list Q -> list Q -> Q) (lgrad : list Q -> list Q -> list Q)
+  T O workers batch sched (oldv : list Q) (oldg : list (list Q)),
+  (1 <= batch)%Z -> valid_schedule workers (Z.of_nat (length O)) batch sched ->
+  length oldv = length O -> length oldg = length O ->
+  grads_value lval T O sched oldv == grads_naive_value lval T O /\
+  grads_gbuf lgrad T O sched oldg = map (fun i => lgrad (nthZ T i nil) (nthZ O i nil)) (zrange 0 (length O)) /\
+  grads_grad lgrad T O sched oldg =
+    map (fun i => map (fun a => a / inject_Z (Z.of_nat (length O))) (lgrad (nthZ T i nil) (nthZ O i nil)))
+        (zrange 0 (length O)).
+Proof.
+  intros lval lgrad T O workers batch sched oldv oldg Hb Hs Hv Hg. split.
+  - exact (grads_value_def lval T O workers batch sched oldv Hb Hs Hv).
+  - exact (grads_gradients_def lgrad T O workers batch sched oldg Hb Hs Hg).
+Qed.
+Print Assumptions C09_gboost_grads_def.
+
+(* 7. caching is transparent: the flatten / targets caches, filled range by range under any schedule over stale
+      content, deliver for every range exactly the rows the direct computation delivers; without a cache (refused or
+      disabled: the cache tests are translated from iterator.cpp) the rows are computed directly *)
+Theorem C09_cache_transparent : forall (B : Type) (row : Z -> B) workers n batch sched (old : list B) (c : Z * Z),
+  (1 <= batch)%Z -> (0 <= n)%Z -> valid_schedule workers n batch sched -> Z.of_nat (length old) = n ->
+  (0 <= fst c)%Z -> (fst c <= snd c)%Z -> (snd c <= n)%Z ->
+  deliver row (fill_cache row sched old) n c = map row (zrange (fst c) (Z.to_nat (snd c - fst c))) /\
+  deliver_targets row (fill_cache row sched old) n c = map row (zrange (fst c) (Z.to_nat (snd c - fst c))).
+Proof. exact @cache_transparent. Qed.
+Print Assumptions C09_cache_transparent.
+
+Theorem C09_no_cache_direct : forall (B : Type) (row : Z -> B) n (c : Z * Z), (0 < n)%Z ->
+  deliver row nil n c = map row (zrange (fst c) (Z.to_nat (snd c - fst c))) /\
+  deliver_targets row nil n c = map row (zrange (fst c) (Z.to_nat (snd c - fst c))).
+Proof. exact @no_cache_direct. Qed.
+Print Assumptions C09_no_cache_direct.
+
+(* 8. the premise is what the implementation does: the schedules observed in a run are recognised by the executable test
+      used by the driver (sound), and the single-thread fast path of map() is a valid schedule for any pool size *)
+Theorem C09_observed_schedules_valid : forall workers n batch sched,
+  (schedule_okb workers n batch sched = true -> valid_schedule workers n batch sched) /\
+  ((1 <= workers)%nat -> valid_schedule workers n batch (inline_schedule n batch)).
+Proof. intros workers n batch sched. split; [apply schedule_okb_sound | apply inline_schedule_valid]. Qed.
+Print Assumptions C09_observed_schedules_valid.
+
+(* 9. the four rational loss instances (mse, mae, hinge, squared hinge) used by the correspondence are convex with the
+      gradient the code returns being a sub-gradient -- also at the kinks, where the code returns sign(0) = 0 *)
+Theorem C09_loss_subgradient : forall l t o o', length t = length o -> length o = length o' ->
+  loss_value l t o + dot (loss_vgrad l t o) (vsub o' o) <= loss_value l t o'.
+Proof. exact loss_subgradient. Qed.
+Print Assumptions C09_loss_subgradient.
+
+(* ---- non-vacuity ----------------------------------------------------------------------------------------------- *)
+(* 7 samples, batch 3 -> chunks [0,3) [3,6) [6,7); 2 workers; completion order 2,0,1 with workers 1,0,1: valid, and the
+   reduced mean of f(i) = i is 3 *)
+Definition ex_sched : list ((Z * Z) * nat) := [((6, 7)%Z, 1%nat); ((0, 3)%Z, 0%nat); ((3, 6)%Z, 1%nat)].
+Example C09_nonvacuous_schedule :
+  schedule_okb 2 7 3 ex_sched = true /\ schedule_okb 1 7 3 ex_sched = false /\
+  schedule_okb 2 7 3 (tl ex_sched) = false /\
+  Qeq_bool (reduced_mean (fun i => inject_Z i) 2 ex_sched 7) 3 = true /\
+  Qeq_bool (naive_mean (fun i => inject_Z i) 7) 3 = true.
+Proof. vm_compute. repeat split; reflexivity. Qed.
+
+(* a stale cache of 7 rows is fully overwritten and delivers the direct rows *)
+Example C09_nonvacuous_cache :
+  deliver (fun i => i) (fill_cache (fun i => i) ex_sched [9; 9; 9; 9; 9; 9; 9]%Z) 7 (2, 5)%Z = [2; 3; 4]%Z.
+Proof. vm_compute. reflexivity. Qed.
